@@ -229,7 +229,9 @@ def rich_ufo(rng, kerning=True, anchors=True, features=True, composites=True, fa
                          ["public.kern2.A", ["A", "a"]]]
         ufo["kerning"] = [["A", "V", -rng.randint(20, 90) * 4 - 2], ["V", "public.kern2.O", -rng.randint(10, 60) * 4],
                           ["public.kern1.O", "public.kern2.A", rng.randint(-30, 30) * 4 + 1], ["V", "period", -80 * 4],
-                          ["public.kern1.O", "V", -30 * 4], ["one", "one", 20 * 4]]
+                          ["public.kern1.O", "V", -30 * 4], ["one", "one", 20 * 4],
+                          # exceptions at two precedence levels
+                          ["V", "o", rng.randint(5, 30) * 4], ["o", "A", -rng.randint(5, 30) * 4 + 2], ["e", "public.kern2.A", 44]]
         ufo["kernScale"] = 4
     if features:
         ufo["fea"] = ("languagesystem DFLT dflt;\nlanguagesystem latn dflt;\n"
@@ -250,8 +252,10 @@ def rich_family(rng, n_masters=2, axes=1, **kw):
         m["info"]["styleName"] = f"Bold{k}"
         if "kerning" in m:
             m["kerning"] = [[l, r, v + rng.randint(-20, 20) * 4] for l, r, v in m["kerning"]]
-            if rng.random() < 0.5 and len(m["kerning"]) > 2:
-                m["kerning"].pop(rng.randrange(len(m["kerning"])))   # a pair present in one master only
+            if rng.random() < 0.6 and len(m["kerning"]) > 2:
+                # a pair present in some masters only; preferably an exception, so that the DS+UFO fallback matters
+                exc = [i for i, e in enumerate(m["kerning"]) if (e[0], e[1]) in (("V", "o"), ("o", "A"), ("e", "public.kern2.A"))]
+                m["kerning"].pop(rng.choice(exc) if exc and rng.random() < 0.7 else rng.randrange(len(m["kerning"])))
         masters.append({"loc": loc, "ufo": m, "name": f"Bold{k}"})
     fam = {"axes": [{"name": "Weight", "tag": "wght", "min": 400, "default": 400, "max": 700}], "masters": masters}
     return fam
